@@ -7,6 +7,7 @@ import (
 	"strings"
 
 	"verif/cmsverify"
+	"verif/hx"
 	"verif/mapseam"
 	"verif/mb"
 	"verif/mimeread"
@@ -20,15 +21,48 @@ type c08Case struct {
 	Renders int    `json:"renders"`
 	Ks      []int  `json:"ks"` // map-iteration start per render
 	Mod     string `json:"mod"`
+	// Switch = {k1, n, k2}: during every render the first n map iterations start at k1, later ones at k2
+	// (gives the signed pre-rendering and the emission different map orders inside one WriteTo)
+	Switch []int `json:"switch,omitempty"`
+	// Unsigned renders before signing is switched on (history: render, SignWith…, render)
+	PreRenders int `json:"pre_renders,omitempty"`
+	// Touch: change the subject between signed renders
+	Touch bool `json:"touch,omitempty"`
 }
 
 func c08Exec(r *vf.Run, k c08Case) []finding {
 	var out []finding
 	add := func(key, f string, a ...interface{}) { out = append(out, finding{key, fmt.Sprintf(f, a...)}) }
-	m, err := mb.Build(k.Spec, nil)
+	bspec := k.Spec
+	if k.PreRenders > 0 {
+		bspec.SMIME = 0
+	}
+	m, err := mb.Build(bspec, nil)
 	if err != nil {
 		r.HarnessError("C08 build: %v (%s)", err, k.Spec.Describe())
 		return nil
+	}
+	for i := 0; i < k.PreRenders; i++ {
+		var b bytes.Buffer
+		if _, err := m.WriteTo(&b); err != nil {
+			r.HarnessError("C08 unsigned pre-render: %v", err)
+			return nil
+		}
+	}
+	if k.PreRenders > 0 {
+		mat := hx.Mat()
+		kp := mat.SignRSA
+		if k.Spec.SMIME == 2 {
+			kp = mat.SignECDSA
+		}
+		inter := mat.InterCert
+		if !k.Spec.Inter {
+			inter = nil
+		}
+		if err := m.SignWithKeypair(kp.PrivateKey, kp.Leaf, inter); err != nil {
+			r.HarnessError("C08 SignWithKeypair: %v", err)
+			return nil
+		}
 	}
 	_, shape := expectedLeaves(k.Spec)
 	cls := shapeClass(shape)
@@ -43,7 +77,16 @@ func c08Exec(r *vf.Run, k c08Case) []finding {
 		if ri < len(k.Ks) {
 			ks = k.Ks[ri]
 		}
-		pan, pw := vf.Guard(func() { mapseam.With(ks, func() { _, werr = m.WriteTo(&buf) }) })
+		if k.Touch && ri > 0 {
+			m.Subject(fmt.Sprintf("subject changed before render %d", ri+1))
+		}
+		pan, pw := vf.Guard(func() {
+			if len(k.Switch) == 3 && k.Switch[1] > 0 {
+				mapseam.WithSwitch(k.Switch[0], k.Switch[1], k.Switch[2], func() { _, werr = m.WriteTo(&buf) })
+			} else {
+				mapseam.With(ks, func() { _, werr = m.WriteTo(&buf) })
+			}
+		})
 		rn := fmt.Sprintf("render%d", ri+1)
 		if ri > 0 {
 			rn = "re-render"
@@ -231,6 +274,19 @@ func c08Specs(thorough bool) []c08Case {
 								for _, ks := range kss {
 									cs = append(cs, c08Case{Spec: v, Renders: 3, Ks: ks, Mod: mod})
 								}
+								if mapMatters {
+									for nsw := 1; nsw <= 14; nsw++ {
+										for _, pr := range [][2]int{{0, 1}, {1, 0}, {2, 5}} {
+											cs = append(cs, c08Case{Spec: v, Renders: 2, Ks: []int{0, 0}, Mod: mod, Switch: []int{pr[0], nsw, pr[1]}})
+										}
+									}
+								}
+								// histories: unsigned render(s) first, then sign; change the subject between signed renders
+								if thorough || n%4 == 0 || mod == "none" && n%2 == 0 {
+									cs = append(cs, c08Case{Spec: v, Renders: 2, Ks: []int{0, 0}, Mod: mod, PreRenders: 1})
+									cs = append(cs, c08Case{Spec: v, Renders: 2, Ks: []int{0, 0}, Mod: mod, PreRenders: 2, Touch: true})
+									cs = append(cs, c08Case{Spec: v, Renders: 3, Ks: []int{0, 0, 0}, Mod: mod, Touch: true})
+								}
 							}
 						}
 					}
@@ -245,7 +301,7 @@ func init() {
 	vf.Register(&vf.Check{
 		ID: "C08", Title: "S/MIME signatures verify for every message shape",
 		Run: func(r *vf.Run) {
-			r.SetRule("all 36 part/embed/attachment count combinations (0..3 × 0..2 × 0..2) × message encoding {QP, base64, 8bit} × file encoding {base64, 8bit, QP} with per-part encodings × modifier {none, part/file descriptions, no From, empty To list via ToIgnoreInvalid, generic header without values, two preformatted headers (one multi-line), long folded subject} × key {ECDSA P-256, RSA-2048} × {with, without intermediate certificate} × three consecutive renders × map-iteration start 0..7 on the renders where map order matters; every output is split by the harness' MIME reader and the PKCS#7 structure is verified by the harness' own CMS verifier (digest of the first part as emitted, signature over the DER SET of signed attributes, embedded certificates, protocol/micalg); distinct by (program, map starts)")
+			r.SetRule("all 36 part/embed/attachment count combinations (0..3 × 0..2 × 0..2) × message encoding {QP, base64, 8bit} × file encoding {base64, 8bit, QP} with per-part encodings × modifier {none, part/file descriptions, no From, empty To list via ToIgnoreInvalid, generic header without values, two preformatted headers (one multi-line), long folded subject} × key {ECDSA P-256, RSA-2048} × {with, without intermediate certificate} × three consecutive renders × histories {signed from the start; 1–2 unsigned renders, then SignWithKeypair, then render; subject changed between signed renders} × map-iteration start 0..7 on the renders where map order matters, incl. a different order for the signed pre-rendering and the emission inside one WriteTo (switch after n = 1..14 iterations); every output is split by the harness' MIME reader and the PKCS#7 structure is verified by the harness' own CMS verifier (digest of the first part as emitted, signature over the DER SET of signed attributes, embedded certificates, protocol/micalg); distinct by (program, map starts)")
 			r.Assume("content is in canonical CRLF form", "cmsverify is validated at start-up against OpenSSL-produced CMS signatures (RSA and ECDSA)")
 			if !mapseam.Enabled {
 				r.Incomplete("runtime map-iteration seam not available: map order is sampled")
@@ -270,7 +326,7 @@ func init() {
 				st := vf.Hash(shapeClass(shape), k.Mod, fmt.Sprint(k.Spec.SMIME), "built")
 				for ri := 0; ri < k.Renders; ri++ {
 					nx := vf.Hash(shapeClass(shape), k.Mod, fmt.Sprint(k.Spec.SMIME), fmt.Sprint(ri+1))
-					r.Transition(st, fmt.Sprintf("render k=%d", k.Ks[ri]), nx)
+					r.Transition(st, fmt.Sprintf("render k=%d sw=%v pre=%d", k.Ks[ri], k.Switch, k.PreRenders), nx)
 					st = nx
 				}
 				r.TraceValidated()
